@@ -74,6 +74,20 @@ def make_branch(desc, cin, cout):
     raise ValueError(k)
 
 
+_UC = {}
+
+
+def _user_choice_class():
+    """a user-defined subclass of SuperNetModule (what a model zoo does to name its blocks)"""
+    if 'c' not in _UC:
+        from plinio.methods.supernet import SuperNetModule
+
+        class UserChoice(SuperNetModule):
+            pass
+        _UC['c'] = UserChoice
+    return _UC['c']
+
+
 class SNProg(nn.Module):
     def __init__(self, desc):
         super().__init__()
@@ -87,7 +101,9 @@ class SNProg(nn.Module):
             elif t == 'bn':
                 self.add_module(st['name'], nn.BatchNorm2d(st['c']))
             elif t == 'sn':
-                self.add_module(st['name'], SuperNetModule(
+                # (every other choice block of a network is an instance of a user subclass)
+                cls = _user_choice_class() if st.get('subclass') else SuperNetModule
+                self.add_module(st['name'], cls(
                     [make_branch(b, st['cin'], st['cout']) for b in st['branches']],
                     gumbel_softmax=desc.get('gumbel', False), hard_softmax=desc.get('hard', False)))
             elif t == 'pool':
@@ -154,7 +170,8 @@ def gen_sn_desc(rng, n_blocks=None, max_branches=5, kinds=None, allow_twice=True
                 k = 'conv'
             branches.append({'kind': k, 'k': rng.choice([1, 3, 5]), 'bias': rng.random() < 0.8})
         stages.append({'type': 'sn', 'name': nm('sn'), 'cin': c, 'cout': cout,
-                       'branches': branches, 'twice': twice})
+                       'branches': branches, 'twice': twice,
+                       'subclass': len(stages) % 2 == 1})
         if twice == 'diff':
             size //= 2
         c = cout
